@@ -90,6 +90,8 @@ impl<T> Signal<T> {
     pub(crate) fn async_blocking_wait(&self) -> bool {
         #[cfg(kanal_verif)]
         crate::verif::rt::probe(crate::verif::rt::probe::ABW_ENTER);
+        #[cfg(kanal_verif)]
+        crate::verif::rt::unbounded_wait(self as *const Self as usize);
         let v = self.state.load(Ordering::Relaxed);
         if v < LOCKED {
             fence(Ordering::Acquire);
